@@ -53,6 +53,11 @@ type Program struct {
 	// RaceReopen: reopen without first waiting for the closed instance's
 	// asynchronous file removals (timing dependent by design).
 	RaceReopen bool `json:",omitempty"`
+	// Quiet: the monitors run only after check / drain / reopen / close
+	// steps instead of after every step.  Reading is not side-effect free
+	// (it sorts deferred-sort segments, fills the snapshot cache), so some
+	// programs must let several steps pass unobserved.
+	Quiet bool `json:",omitempty"`
 }
 
 // Summary renders the program compactly.
@@ -371,10 +376,43 @@ func (r *Runner) doStep(st Step) bool {
 		return r.openHandle(st)
 	case "closeh":
 		r.closeWithDependents(st.H)
+	case "iterseek":
+		// SeekTo on an open iterator handle (backward or forward); the
+		// frozen position is updated by the reference lower-bound.
+		h := r.handles[st.H]
+		if h == nil || h.Kind != "iter" || h.Closed {
+			return true
+		}
+		var serr error
+		if ferr := Safe(func() error { serr = h.Iter.SeekTo(st.Start); return nil }); ferr != nil {
+			r.viol("frozen", "fault/iter", r.outlived(h), fmt.Sprintf("iterator #%d SeekTo(%q): %v", st.H, st.Start, ferr))
+			return false
+		}
+		t := st.Start
+		if h.Start != nil && bytes.Compare(t, h.Start) < 0 {
+			t = h.Start
+		}
+		h.Pos = sort.Search(len(h.Range), func(i int) bool { return bytes.Compare([]byte(h.Range[i]), t) >= 0 })
+		if (h.Pos < len(h.Range)) != (serr == nil) {
+			r.viol("frozen", "changed/iter/seek", r.outlived(h), fmt.Sprintf("iterator #%d SeekTo(%q) returned %v, frozen range has %d keys, position %d", st.H, st.Start, serr, len(h.Range), h.Pos))
+			return false
+		}
+		r.cnt("handles.iter_seeks", 1)
 	case "closecoll":
-		r.resumeAll()
+		if st.A != "mid" {
+			r.resumeAll()
+		}
 		if e.Coll != nil {
-			if err := e.CloseColl(); err != nil {
+			var err error
+			if st.A == "mid" {
+				err = e.CloseCollMid()
+				if err != nil && strings.HasPrefix(err.Error(), "watchdog") {
+					return r.watchdog(err.Error())
+				}
+			} else {
+				err = e.CloseColl()
+			}
+			if err != nil {
 				r.viol("close", "collection-close-error", "", err.Error())
 				return false
 			}
@@ -548,6 +586,13 @@ func (r *Runner) afterStep(st Step) {
 	e := r.E
 	if r.unprovoked() {
 		return
+	}
+	if r.P.Quiet {
+		switch st.K {
+		case "check", "drain", "reopen", "closecoll", "closestore", "lowerfinal", "gaugesfinal":
+		default:
+			return
+		}
 	}
 	park := e.D.Parked("merger") + "+" + e.D.Parked("persister")
 	if e.Coll != nil {
